@@ -114,6 +114,16 @@ _add("C12", H("H12_syn", common={"vectors": True}, quick={"wall": "140s", "shard
 _add("C14", H("H14_large", common={"vectors": True}, quick={"wall": "200s", "shards": 16, "shard-depth": 4}, thorough={"wall": "1500s", "shards": 16, "shard-depth": 4, "param": "nLarge=2100"}))
 
 
+# builds above the 1024 boundary (cardinality-dependent chunk sizes; multi-valued field repeating a term)
+_add("C01", H("H01_large", quick={"wall": "200s", "shards": 16, "shard-depth": 4}, thorough={"wall": "1500s", "shards": 16, "shard-depth": 4, "param": "nLarge=2100"}))
+_add("C07", H("H01_large", quick={"wall": "200s", "shards": 16, "shard-depth": 4}, thorough={"skip": True}))
+# doc-value chunks of one or two documents (legacy chunk mode): chunks without data for a field inside a merge
+_add("C06", H("H06_merge", quick={"wall": "150s", "shards": 16, "param": "maxDocs=3,maxDocs1=0,tieReopen=1,lite=1,dvChunk=2"},
+              thorough={"wall": "1500s", "shards": 16, "param": "maxDocs=2,maxDocs1=1,tieReopen=1,lite=1,dvChunk=2"}))
+# the doc-value offset pair of a field section as read by the opened-file loader, full width
+_add("C04", H("K10_dvoffsets"))
+_add("C03", H("K10_dvoffsets"))
+
 # thorough wall budgets: the first budgeted run of a property gets 600 s, the others 240 s (a thorough check
 # also repeats the quick configurations, which are exhaustive inside their bounds)
 for _pid in PLAN:
